@@ -1,0 +1,192 @@
+//go:build verif
+
+package filedesc
+
+import (
+	"google.golang.org/protobuf/reflect/protoreflect"
+)
+
+// Contracts for the reserved / extension range tables (properties C35, C36).
+//
+// `sorted` is the lazily built view of List ordered by range start. That it is
+// a permutation of List is the assumed contract of sort.Slice under sync.Once
+// (trusted, see contract_*_lazyInit: the uninterpreted predicates
+// specSortedViewF / specSortedViewE name that relation); everything below is
+// proved over the elements of `sorted`.
+
+//@ uninterpreted
+func specSortedViewF(sorted, list [][2]protoreflect.FieldNumber) bool { return len(sorted) == len(list) }
+
+//@ uninterpreted
+func specSortedViewE(sorted, list [][2]protoreflect.EnumNumber) bool { return len(sorted) == len(list) }
+
+// specFieldEnd is the inclusive end of a field range stored as [start, end).
+// (For an exclusive end of MinInt32 the subtraction wraps to MaxInt32; the
+// library reads such a range as "start .. MaxInt32", and so does this spec.
+// lemma_FieldEndExclusive shows the two readings agree for every other end.)
+func specFieldEnd(r [2]protoreflect.FieldNumber) protoreflect.FieldNumber { return r[1] - 1 }
+
+// A field range contains n: start <= n <= inclusive end.
+func specFieldContains(r [2]protoreflect.FieldNumber, n protoreflect.FieldNumber) bool {
+	return r[0] <= n && n <= specFieldEnd(r)
+}
+
+//@ props C36
+//@ mode int
+func lemma_FieldEndExclusive(r [2]protoreflect.FieldNumber, n protoreflect.FieldNumber) {
+	requires(r[1] > -1<<31)
+	ensures(specFieldContains(r, n) == (r[0] <= n && n < r[1]))
+}
+
+// An enum range [start, end] contains n (end inclusive).
+func specEnumContains(r [2]protoreflect.EnumNumber, n protoreflect.EnumNumber) bool {
+	return r[0] <= n && n <= r[1]
+}
+
+// specFieldSortedOK: non-empty, pairwise disjoint, ascending ranges.
+func specFieldSortedOK(s [][2]protoreflect.FieldNumber) bool {
+	return forallIn(s, 0, len(s), func(k int, e [2]protoreflect.FieldNumber) bool {
+		return e[0] <= specFieldEnd(e) && forallIn(s, 0, k, func(j int, f [2]protoreflect.FieldNumber) bool { return specFieldEnd(f) < e[0] })
+	})
+}
+
+func specEnumSortedOK(s [][2]protoreflect.EnumNumber) bool {
+	return forallIn(s, 0, len(s), func(k int, e [2]protoreflect.EnumNumber) bool {
+		return e[0] <= e[1] && forallIn(s, 0, k, func(j int, f [2]protoreflect.EnumNumber) bool { return f[1] < e[0] })
+	})
+}
+
+// lazyInit: assumed (sync.Once + sort.Slice): p.sorted becomes List sorted by start.
+//
+//@ trusted
+func contract_FieldRanges_lazyInit(p *FieldRanges) (r *FieldRanges) {
+	requires(p != nil)
+	modifiesPtr(p)
+	ensures(r == p)
+	ensures(len(p.List) == old(len(p.List)) && sameArray(p.List, old(p.List)))
+	ensures(len(p.sorted) == len(p.List))
+	ensures(specSortedViewF(p.sorted, p.List))
+	return
+}
+
+//@ trusted
+func contract_EnumRanges_lazyInit(p *EnumRanges) (r *EnumRanges) {
+	requires(p != nil)
+	modifiesPtr(p)
+	ensures(r == p)
+	ensures(len(p.List) == old(len(p.List)) && sameArray(p.List, old(p.List)))
+	ensures(len(p.sorted) == len(p.List))
+	ensures(specSortedViewE(p.sorted, p.List))
+	return
+}
+
+//@ props C36
+//@ mode int
+//@ inline Start End
+//@ loop 1 invariant sameBase(ls, p.sorted) && 0 <= offsetIn(ls, p.sorted) && offsetIn(ls, p.sorted)+len(ls) <= len(p.sorted)
+//@ loop 1 invariant imp(specFieldSortedOK(p.sorted), forallIn(p.sorted, 0, offsetIn(ls, p.sorted), func(k int, e [2]protoreflect.FieldNumber) bool { return specFieldEnd(e) < n }))
+//@ loop 1 invariant imp(specFieldSortedOK(p.sorted), forallIn(p.sorted, offsetIn(ls, p.sorted)+len(ls), len(p.sorted), func(k int, e [2]protoreflect.FieldNumber) bool { return n < e[0] }))
+//@ loop 1 decreases len(ls)
+func contract_FieldRanges_Has(p *FieldRanges, n protoreflect.FieldNumber) (r bool) {
+	requires(p != nil)
+	modifiesPtr(p)
+	// over valid (disjoint, ascending) ranges the binary search is exactly membership
+	ensures(imp(specFieldSortedOK(p.sorted), r == existsIn(p.sorted, 0, len(p.sorted), func(k int, e [2]protoreflect.FieldNumber) bool { return specFieldContains(e, n) })))
+	// a positive answer is always witnessed by a listed range, valid table or not
+	ensures(imp(r, existsIn(p.sorted, 0, len(p.sorted), func(k int, e [2]protoreflect.FieldNumber) bool { return specFieldContains(e, n) })))
+	ensures(specSortedViewF(p.sorted, p.List) && sameArray(p.List, old(p.List)))
+	return
+}
+
+//@ props C36
+//@ mode int
+//@ inline Start End
+//@ loop 1 invariant sameBase(ls, p.sorted) && 0 <= offsetIn(ls, p.sorted) && offsetIn(ls, p.sorted)+len(ls) <= len(p.sorted)
+//@ loop 1 invariant imp(specEnumSortedOK(p.sorted), forallIn(p.sorted, 0, offsetIn(ls, p.sorted), func(k int, e [2]protoreflect.EnumNumber) bool { return e[1] < n }))
+//@ loop 1 invariant imp(specEnumSortedOK(p.sorted), forallIn(p.sorted, offsetIn(ls, p.sorted)+len(ls), len(p.sorted), func(k int, e [2]protoreflect.EnumNumber) bool { return n < e[0] }))
+//@ loop 1 decreases len(ls)
+func contract_EnumRanges_Has(p *EnumRanges, n protoreflect.EnumNumber) (r bool) {
+	requires(p != nil)
+	modifiesPtr(p)
+	ensures(imp(specEnumSortedOK(p.sorted), r == existsIn(p.sorted, 0, len(p.sorted), func(k int, e [2]protoreflect.EnumNumber) bool { return specEnumContains(e, n) })))
+	ensures(imp(r, existsIn(p.sorted, 0, len(p.sorted), func(k int, e [2]protoreflect.EnumNumber) bool { return specEnumContains(e, n) })))
+	ensures(specSortedViewE(p.sorted, p.List) && sameArray(p.List, old(p.List)))
+	return
+}
+
+// ---------------------------------------------------------------- C35: validation of range tables
+
+//@ props C35
+//@ mode int
+func contract_isValidFieldNumber(n protoreflect.FieldNumber, isMessageSet bool) (ok bool) {
+	// documented field-number domain: 1 .. 2^29-1, MessageSet extends it to the int32 maximum
+	ensures(ok == (1 <= n && (n <= 1<<29-1 || isMessageSet)))
+	return
+}
+
+// specFieldNumbersOK: every range boundary is a valid field number (end exclusive).
+func specFieldNumbersOK(s [][2]protoreflect.FieldNumber, isMessageSet bool) bool {
+	return forallIn(s, 0, len(s), func(k int, e [2]protoreflect.FieldNumber) bool {
+		return 1 <= e[0] && (e[0] <= 1<<29-1 || isMessageSet) && 1 <= specFieldEnd(e) && (specFieldEnd(e) <= 1<<29-1 || isMessageSet)
+	})
+}
+
+//@ props C35
+//@ mode int
+//@ inline Start End
+//@ loop 1 invariant p != nil && len(p.sorted) >= loopIndex
+//@ loop 1 invariant imp(loopIndex > 0, rp == fieldRange(p.sorted[loopIndex-1]))
+//@ loop 1 invariant forallIn(p.sorted, 0, loopIndex, func(k int, e [2]protoreflect.FieldNumber) bool { return 1 <= e[0] && (e[0] <= 1<<29-1 || isMessageSet) && 1 <= specFieldEnd(e) && (specFieldEnd(e) <= 1<<29-1 || isMessageSet) })
+//@ loop 1 invariant forallIn(p.sorted, 0, loopIndex, func(k int, e [2]protoreflect.FieldNumber) bool { return e[0] <= specFieldEnd(e) && forallIn(p.sorted, 0, k, func(j int, f [2]protoreflect.FieldNumber) bool { return specFieldEnd(f) < e[0] }) })
+func contract_FieldRanges_CheckValid(p *FieldRanges, isMessageSet bool) (err error) {
+	requires(p != nil)
+	modifiesPtr(p)
+	// a nil verdict means: all boundaries are valid field numbers, no range is empty, no two overlap
+	ensures(imp(err == nil, specFieldNumbersOK(p.sorted, isMessageSet) && specFieldSortedOK(p.sorted)))
+	// and conversely a table with those qualities is accepted
+	ensures(imp(specFieldNumbersOK(p.sorted, isMessageSet) && specFieldSortedOK(p.sorted), err == nil))
+	ensures(specSortedViewF(p.sorted, p.List) && sameArray(p.List, old(p.List)))
+	return
+}
+
+//@ props C35
+//@ mode int
+//@ inline Start End
+//@ loop 1 invariant p != nil && len(p.sorted) >= loopIndex
+//@ loop 1 invariant imp(loopIndex > 0, rp == enumRange(p.sorted[loopIndex-1]))
+//@ loop 1 invariant forallIn(p.sorted, 0, loopIndex, func(k int, e [2]protoreflect.EnumNumber) bool { return e[0] <= e[1] && forallIn(p.sorted, 0, k, func(j int, f [2]protoreflect.EnumNumber) bool { return f[1] < e[0] }) })
+func contract_EnumRanges_CheckValid(p *EnumRanges) (err error) {
+	requires(p != nil)
+	modifiesPtr(p)
+	ensures(iff(err == nil, specEnumSortedOK(p.sorted)))
+	ensures(specSortedViewE(p.sorted, p.List) && sameArray(p.List, old(p.List)))
+	return
+}
+
+//@ props C35
+//@ mode int
+//@ inline Start End
+//@ loop 1 invariant 0 <= pi && pi <= len(rps) && 0 <= qi && qi <= len(rqs)
+//@ loop 1 invariant sameArray(rps, p.sorted) && len(rps) == len(p.sorted) && sameArray(rqs, q.sorted) && len(rqs) == len(q.sorted)
+//@ loop 1 invariant imp(specFieldSortedOK(rps) && specFieldSortedOK(rqs), forallIn(rps, 0, pi, func(k int, e [2]protoreflect.FieldNumber) bool { return forallIn(rqs, 0, len(rqs), func(l int, f [2]protoreflect.FieldNumber) bool { return specFieldEnd(e) < f[0] || specFieldEnd(f) < e[0] }) }))
+//@ loop 1 invariant imp(specFieldSortedOK(rps) && specFieldSortedOK(rqs), forallIn(rqs, 0, qi, func(l int, f [2]protoreflect.FieldNumber) bool { return forallIn(rps, 0, len(rps), func(k int, e [2]protoreflect.FieldNumber) bool { return specFieldEnd(e) < f[0] || specFieldEnd(f) < e[0] }) }))
+//@ loop 1 decreases len(rps)-pi+len(rqs)-qi
+func contract_FieldRanges_CheckOverlap(p *FieldRanges, q *FieldRanges) (err error) {
+	requires(p != nil && q != nil && p != q)
+	modifiesPtr(p)
+	modifiesPtr(q)
+	// for two valid tables, a nil verdict means no range of p meets a range of q
+	ensures(imp(err == nil && specFieldSortedOK(p.sorted) && specFieldSortedOK(q.sorted),
+		forallIn(p.sorted, 0, len(p.sorted), func(k int, e [2]protoreflect.FieldNumber) bool {
+			return forallIn(q.sorted, 0, len(q.sorted), func(l int, f [2]protoreflect.FieldNumber) bool {
+				return specFieldEnd(e) < f[0] || specFieldEnd(f) < e[0]
+			})
+		})))
+	// and an error is only reported for a genuinely overlapping pair
+	ensures(imp(err != nil, existsIn(p.sorted, 0, len(p.sorted), func(k int, e [2]protoreflect.FieldNumber) bool {
+		return existsIn(q.sorted, 0, len(q.sorted), func(l int, f [2]protoreflect.FieldNumber) bool {
+			return !(specFieldEnd(e) < f[0] || specFieldEnd(f) < e[0])
+		})
+	})))
+	return
+}
